@@ -21,7 +21,7 @@ func (r *rng) next() uint64 {
 	z = (z ^ (z >> 27)) * 0x94d049bb133111eb
 	return z ^ (z >> 31)
 }
-func (r *rng) intn(n int) int { return int(r.next() % uint64(n)) }
+func (r *rng) intn(n int) int           { return int(r.next() % uint64(n)) }
 func (r *rng) chance(num, den int) bool { return r.intn(den) < num }
 
 // ---------- case output ----------
